@@ -34,7 +34,8 @@ def to_scenario(sid, hist, npeers):
         steps.append({"op": "tick", "d": d, "k": k})
         st = dict(h)
         st["room"] = "R1"
-        if st["op"] == "put":
+        if st["op"] in ("put", "move"):
+            # (a mutation that only names another room changes nothing: a move also writes a field)
             st["text"] = "t%d" % k
         steps.append(st)
     steps.append({"op": "tick", "d": d, "k": k + 1})
